@@ -349,7 +349,10 @@ def run_hist(inp):
         # is appended through the link it must be what it was, and nothing new may appear next to it
         outside = None
         for name in inp.get('links', []):
-            appended = any(op[0] == 'open' and op[1] == name and 'a' in op[2] for op in inp['ops'])
+            # appending through the name, or through a backup name of it (the link itself is moved there), legitimately
+            # changes the file the link points to
+            appended = any(op[0] == 'open' and 'a' in op[2] and (op[1] == name or op[1].startswith('#' + name + '.'))
+                           for op in inp['ops'])
             try:
                 with open(os.path.join(elsewhere, name), 'rb') as f:
                     now = f.read().decode('latin-1')
